@@ -209,9 +209,186 @@ theorem lk_body (fuel : Nat) (rev : Nat → Nat) (priv0 : Loc → Option Val) (i
             by_cases hr : w.rem = true <;> by_cases hb : w.bkt = true <;> by_cases he : rev n = rh <;>
               (try simp [hr, hb, he] at hnm) <;>
               lexec [lkBody, firstLoop, Gen.Src.«lfht.cds_lfht_lookup», call_is_end, call_clear_flag, call_is_removed,
-                call_is_bucket, pureCall, bind1, encP_pos hn] <;>
+                call_is_bucket, pureCall, bind1, encP_pos hn, Int.natCast_inj] <;>
               (refine hfin _ ?_ ?_ ?_ ?_ ?_ <;> first | rfl | simp [hpr, hit, hrh, hky])
-          trace_state
-          sorry
+          by_cases hnm0 : needsMatch rev x w = false
+          · exact hskip hnm0
+          have hnm : needsMatch rev x w = true := by simpa using hnm0
+          have hnm' := hnm
+          simp [needsMatch, hxwk, hxcur, hxrh'] at hnm'
+          obtain ⟨⟨hr, hb⟩, he⟩ := hnm'
+          have hs1 : lstep rev (ofPair (x, .unit)) (.ldNext n w 1) = some { x := x, pend := .key w, out := .unit } := by
+            simp [lstep, ofPair, hxpc, hxcur, hnm]
+          have hO1 := hrest _ hs1
+          cases rest with
+          | nil =>
+            lexec [lkBody, firstLoop, Gen.Src.«lfht.cds_lfht_lookup», call_is_end, call_clear_flag, call_is_removed,
+              call_is_bucket, pureCall, bind1, encP_pos hn, Int.natCast_inj]
+            simp [lr, lrun, absEv, hs1, Ctl.goesOn, WalkR]
+          | cons v2 rest =>
+            obtain ⟨l, hl, hrest2⟩ := hO1 (by simp [active])
+            simp only [obsLabel] at hl
+            cases v2 with
+            | ptr _ => simp at hl
+            | int m =>
+              simp only [Option.some.injEq, hxcur, hxky'] at hl
+              subst hl
+              by_cases hm0 : m = 0
+              · subst hm0
+                have hs2 : lstep rev { x := x, pend := .key w, out := .unit } (.matchKey n ky false) =
+                    some (ofPair (lwalkPos rev { x with wnx := w } w.ptr)) := by
+                  simp [lstep, hxcur, hxky']
+                have hO2 := hrest2 _ hs2
+                lexec [lkBody, firstLoop, Gen.Src.«lfht.cds_lfht_lookup», call_is_end, call_clear_flag, call_is_removed,
+                  call_is_bucket, pureCall, bind1, encP_pos hn, Int.natCast_inj]
+                refine ⟨ofPair (lwalkPos rev { x with wnx := w } w.ptr), by simp [lr, lrun, absEv, hs1, hs2], ?_⟩
+                simp only [Ctl.goesOn, if_true]
+                exact ⟨by simp [hpr], by simp [hit], by simp [hrh], by simp [hky], w.ptr, { x with wnx := w }, by simp,
+                  hxwk, hxrh', hxky', rfl, hO2⟩
+              · have hmb : (m != 0) = true := by simpa using hm0
+                rw [hmb] at hrest2
+                have hs2 : lstep rev { x := x, pend := .key w, out := .unit } (.matchKey n ky true) =
+                    some { x := { x with wnx := w, pc := .wAssert }, pend := .none, out := .unit } := by
+                  simp [lstep, hxcur, hxky']
+                have hO2 := hrest2 _ hs2
+                lexec [lkBody, firstLoop, Gen.Src.«lfht.cds_lfht_lookup», call_is_end, call_clear_flag, call_is_removed,
+                  call_is_bucket, pureCall, bind1, encP_pos hn, Int.natCast_inj]
+                refine ⟨{ x := { x with wnx := w, pc := .wAssert }, pend := .none, out := .unit },
+                  by simp [lr, lrun, absEv, hs1, hs2, hmb], ?_⟩
+                simp only [Ctl.goesOn, WalkR]
+                refine ⟨by simp [hpr], by simp [hit], .inr ⟨n, hn, by simp [hnode, encP_pos hn], by simp, ?_, ?_, ?_, ?_, hO2⟩⟩
+                · trivial
+                · exact hxcur
+                · trivial
+                · simp [hxwk]
+
+theorem lk_loop (fuel : Nat) (rev : Nat → Nat) (priv0 : Loc → Option Val) (it rh ky : Nat)
+    (hrev : RevView rev priv0) (env : Env) (inp : List Val) (ls : LState) (r : Except String Out)
+    (hE : iterate (exec fuel lkBody) fuel env inp [] = r) (hI : WalkI rev priv0 it .lookup rh ky env inp ls) :
+    ∃ out, r = .ok out ∧ ∃ ls', lr rev ls out.events = some ls' ∧
+      (out.ctl = .fuel ∨ ∃ c, c.goesOn = false ∧ WalkR rev priv0 it c out.env out.inp ls' ∧ out.ctl = c.afterLoop) := by
+  obtain ⟨out, hout, evs, ls', hev, hl, hfin⟩ :=
+    iterate_inv (lr rev) (lr_nil rev) (lr_append rev) (exec fuel lkBody) (WalkI rev priv0 it .lookup rh ky)
+      (WalkR rev priv0 it) (lk_body fuel rev priv0 it rh ky hrev) fuel env inp ls [] hI
+  refine ⟨out, by rw [← hE, hout], ls', ?_, hfin⟩
+  rw [hev]; simpa using hl
+
+/-- **`cds_lfht_lookup(ht, hash, match, key, iter)`** from L2's state after `callLookup` (pc `lSize`) -/
+theorem lookup_exec (fuel : Nat) (rev : Nat → Nat) (env : Env) (inp : List Val) (x : Thr) (o0 : Lfht.Conc.Out)
+    (ht it : Nat) (fp : Val)
+    (hht : env.vars "ht" = some (.ptr (.obj ht))) (hhash : env.vars "hash" = some (.int x.hs))
+    (hkey : env.vars "key" = some (.int x.ky)) (hiter : env.vars "iter" = some (.ptr (.obj it)))
+    (hfp : env.priv (.field (.obj ht) "bucket_at") = some fp) (hrev : RevView rev env.priv)
+    (hpc : x.pc = .lSize) (hwk : x.wk = .lookup)
+    (hO : OracleOk rev { x := x, pend := .none, out := o0 } inp) :
+    ∃ out, exec fuel Gen.Src.«lfht.cds_lfht_lookup» env inp = .ok out ∧
+      ∃ ls', lr rev { x := x, pend := .none, out := o0 } out.events = some ls' ∧ WalkDone it out ls' := by
+  have hshape : Gen.Src.«lfht.cds_lfht_lookup» =
+      .seq _ (.seq _ (.seq _ (.seq _ (.seq _ (.seq _ (.seq _ (.seq _ (.seq _ (.seq _
+        (.seq (.loop lkBody) lkPost)))))))))) := rfl
+  rw [hshape]
+  cases inp with
+  | nil =>
+    lexec
+    exact ⟨_, lr_nil _ _, .inl rfl⟩
+  | cons v1 rest =>
+    obtain ⟨l, hl, hrest⟩ := hO (by simp [active, hpc])
+    simp only [obsLabel, hpc] at hl
+    cases v1 with
+    | ptr _ => simp at hl
+    | int h =>
+      simp only [Option.ite_none_right_eq_some, Option.some.injEq] at hl
+      obtain ⟨rfl, rfl⟩ := hl
+      have hs1 : lstep rev { x := x, pend := .none, out := o0 } (.hashOf x.hs x.rh) =
+          some { x := x, pend := .size, out := o0 } := by simp [lstep, hpc]
+      have hO1 := hrest _ hs1
+      cases rest with
+      | nil =>
+        lexec
+        simp [lr, lrun, absEv, hs1, WalkDone]
+      | cons v2 rest =>
+        obtain ⟨l, hl, hrest⟩ := hO1 (by simp [active])
+        simp only [obsLabel] at hl
+        cases v2 with
+        | ptr _ => simp at hl
+        | int n =>
+          simp only [Option.ite_none_right_eq_some, Option.some.injEq] at hl
+          obtain ⟨hn1, rfl⟩ := hl
+          have hs2 : lstep rev { x := x, pend := .size, out := o0 } (.ldSize n.toNat 2) =
+              some { x := { x with sz := n.toNat, pc := .lHead }, pend := .bkt, out := .unit } := by simp [lstep]
+          have hO2 := hrest _ hs2
+          have hn0 : 0 ≤ n := by omega
+          have hcast : (n - 1).toNat = n.toNat - 1 := by omega
+          cases rest with
+          | nil =>
+            lexec [exec_call, Gen.Src.«lfht.lookup_bucket», Gen.Src.«lfht.bucket_at»]
+            simp [lr, lrun, absEv, hs1, hs2, hn0, WalkDone]
+          | cons v3 rest =>
+            obtain ⟨l, hl, hrest⟩ := hO2 (by simp [active])
+            simp only [obsLabel] at hl
+            cases v3 with
+            | int _ => simp at hl
+            | ptr lo =>
+              cases lo with
+              | obj b =>
+                simp only [Option.ite_none_right_eq_some, Option.some.injEq] at hl
+                obtain ⟨hb0, rfl⟩ := hl
+                obtain ⟨x3, hx3⟩ : ∃ x3 : Thr, x3 = { x with sz := n.toNat, pc := .lHead, bkt := b } := ⟨_, rfl⟩
+                have hs3 : lstep rev { x := { x with sz := n.toNat, pc := .lHead }, pend := .bkt, out := .unit }
+                    (.bktAt (x.hs &&& (n.toNat - 1)) b) = some { x := x3, pend := .none, out := .unit } := by
+                  rw [hx3]; simp [lstep]
+                have hO3 := hrest _ hs3
+                have h3pc : x3.pc = .lHead := by rw [hx3]
+                have h3bkt : x3.bkt = b := by rw [hx3]
+                have h3wk : x3.wk = .lookup := by rw [hx3]; exact hwk
+                have h3rh : x3.rh = x.rh := by rw [hx3]
+                have h3ky : x3.ky = x.ky := by rw [hx3]
+                cases rest with
+                | nil =>
+                  lexec [exec_call, Gen.Src.«lfht.lookup_bucket», Gen.Src.«lfht.bucket_at»]
+                  simp [lr, lrun, absEv, hs1, hs2, hs3, hn0, hcast, WalkDone]
+                | cons v4 rest =>
+                  obtain ⟨l, hl, hrest⟩ := hO3 (by simp [active, h3pc])
+                  simp only [obsLabel, h3pc] at hl
+                  cases hd : decW v4 with
+                  | none => simp [hd] at hl
+                  | some w =>
+                    have hv := encW_of_decW hd; subst hv
+                    simp only [decW_encW, Option.map, h3bkt] at hl
+                    cases hl
+                    have hs4 : lstep rev { x := x3, pend := .none, out := .unit } (.ldNext b w 1) =
+                        some (ofPair (lwalkPos rev x3 w.ptr)) := by simp [lstep, h3pc, h3bkt]
+                    have hO4 := hrest _ hs4
+                    have hlr4 : ∀ evs, lr rev { x := x, pend := .none, out := o0 }
+                        (Event.ext "bit_reverse_ulong" [Val.int x.hs] (Val.int x.rh) ::
+                          Event.ld ((Loc.obj ht).field "size") (Val.int n) 2 ::
+                          Event.ext "(*bucket_at)" [fp, Val.ptr (Loc.obj ht), Val.int ((x.hs &&& (n.toNat - 1) : Nat) : Int)]
+                            (Val.ptr (Loc.obj b)) ::
+                          Event.ld ((Loc.obj b).field "next") (encW w) 1 :: evs) =
+                        lr rev (ofPair (lwalkPos rev x3 w.ptr)) evs := by
+                      intro evs; simp [lr, lrun, absEv, hs1, hs2, hs3, hs4, hn0]
+                    lexec [exec_call, Gen.Src.«lfht.lookup_bucket», Gen.Src.«lfht.bucket_at», Gen.Src.«lfht.clear_flag»]
+                    generalize hE : iterate (exec fuel lkBody) fuel _ rest [] = r
+                    obtain ⟨o1, rfl, ls1, hl1, hfin⟩ := lk_loop fuel rev env.priv it x.rh x.ky hrev _ rest
+                      (ofPair (lwalkPos rev x3 w.ptr)) r hE
+                      ⟨rfl, by simp [hiter], by simp, by simp [hkey], w.ptr, x3, by simp, h3wk, h3rh, h3ky, rfl, hO4⟩
+                    rcases o1 with ⟨ev1, env1, inp1, ctl1⟩
+                    rcases hfin with hf | ⟨c, hc, hR, hctl⟩
+                    · dsimp only at hf; subst hf
+                      simp [hlr4, WalkDone]; exact ⟨ls1, hl1⟩
+                    · dsimp only at hctl hR hl1
+                      cases c <;> simp [Ctl.goesOn] at hc <;> simp only [Ctl.afterLoop] at hctl <;> subst hctl
+                      · -- break
+                        dsimp only
+                        generalize hE2 : exec fuel lkPost env1 inp1 = r2
+                        obtain ⟨o2, rfl, ls2, hl2, hdone⟩ := lk_post fuel rev env.priv it env1 inp1 ls1 r2 hE2 hR
+                        rcases o2 with ⟨ev2, env2, inp2, ctl2⟩
+                        simp [hlr4, lr_append]
+                        refine ⟨ls2, ?_, by simpa [WalkDone] using hdone⟩
+                        exact (congrArg (fun o => o.bind fun m => lr rev m ev2) hl1).trans hl2
+                      · simp [WalkR] at hR
+                      · simp [hlr4, WalkDone]; exact ⟨ls1, hl1⟩
+                      · simp [WalkR] at hR
+              | _ => simp at hl
 
 end UrcuVerif.Src.LfhtWR
